@@ -128,8 +128,16 @@ func Twofish(enc bool, key, in []byte) ([]byte, error) {
 	return finish(C.vn_twofish(b2i(enc), p(key), C.size_t(len(key)), p(out), p(in), C.size_t(len(in))), out)
 }
 
-// RC2 (ARCTWO) with effective key bits ekb (1..1024; 0 means 1024 in nettle — not passed through).
+// ErrRC2Range: nettle 3.8 substitutes S[0] twice when 1017 <= ekb <= 1023
+// (Gutmann's phase-1 final step is not undone before the RFC 2268 masking
+// step), deviating from RFC 2268 and from libcrypto there; the witness abstains.
+var ErrRC2Range = fmt.Errorf("nettle: arctwo ekb 1017..1023 deviates from RFC 2268")
+
+// RC2 (ARCTWO) with effective key bits ekb (1..1016 or 1024; 0 means 1024 in nettle — not passed through).
 func RC2(enc bool, key []byte, ekb int, in []byte) ([]byte, error) {
+	if ekb >= 1017 && ekb <= 1023 {
+		return nil, ErrRC2Range
+	}
 	if len(key) == 0 || len(in) == 0 || len(in)%8 != 0 || ekb < 1 || ekb > 1024 {
 		return nil, fmt.Errorf("nettlecipher: bad arguments")
 	}
